@@ -39,6 +39,8 @@ class DistinguisherMixin(abc.ABC):
         o_shape = data.shape
         data = data.reshape((o_shape[0], -1))
         first_update = not hasattr(self, '_origin_shape')
+        if first_update:
+            state_before = dict(self.__dict__)
         try:
             if first_update:
                 logger.debug('Initialize distinguisher state.')
@@ -54,8 +56,10 @@ class DistinguisherMixin(abc.ABC):
             self._update(traces=traces, data=data)
         except Exception:
             if first_update:
-                # A refused first update must not leave the distinguisher marked as initialized.
-                del self._origin_shape
+                # A refused first update must leave nothing behind: no initialization marker, no accumulators,
+                # no parameters estimated from the refused batch (e.g. automatically derived partitions).
+                self.__dict__.clear()
+                self.__dict__.update(state_before)
             raise
         self.processed_traces += traces.shape[0]
 
